@@ -10,5 +10,5 @@ TemplatesV ==
   { TSell("", q1, <<15, 0>>, <<1, 0>>), TRoc("", <<1, 0>>), TSplit("*", "2-for-1", <<2, 0>>, One, FALSE) }
 GapsV == {0, 1, 30, 31}
 SplitRatiosV == {<<2, 1>>, <<1, 2>>, <<3, 2>>, <<1, 3>>}
-OpeningsV == {<<>>}
+OpeningsV == {<<>>, <<<<1, 0>>, <<10, 0>>>>}   \* (with an opening share: sold at a loss, split, bought back - three rows)
 =============================================================================
